@@ -19,6 +19,10 @@ use crate::{
 
 pub const BIG: u64 = 2147483647;
 
+thread_local! {
+  pub static LAST_PANIC: RefCell<String> = const { RefCell::new(String::new()) };
+}
+
 fn num(n: u64, big: &mut bool) -> Value {
   if n >= BIG {
     *big = true;
@@ -83,6 +87,82 @@ pub fn segs_json(ms: &[Mapping], big: &mut bool) -> Value {
       })
       .collect(),
   )
+}
+
+/// The parsed document as the TLA+ side reads it: every field either absent
+/// (`[]`) or present (`[value]`), strings as byte arrays, null entries as
+/// the marker `{"null": true}`.
+fn doc_json(d: &Value) -> Value {
+  let s = |v: &Value| -> Value {
+    match v {
+      Value::String(s) => bytes_json(s.as_bytes()),
+      Value::Null => json!({"null": true}),
+      other => json!({"other": other.to_string()}),
+    }
+  };
+  let field = |name: &str| -> Value {
+    match d.get(name) {
+      None => json!([]),
+      Some(Value::Array(a)) => json!([a.iter().map(s).collect::<Vec<_>>()]),
+      Some(Value::Number(n)) => json!([n.as_i64().unwrap_or(-1)]),
+      Some(v) => json!([s(v)]),
+    }
+  };
+  let known = ["version", "file", "sources", "sourcesContent", "names", "mappings", "sourceRoot", "debugId"];
+  let extra = d
+    .as_object()
+    .map(|o| o.keys().filter(|k| !known.contains(&k.as_str())).count())
+    .unwrap_or(0);
+  json!({
+    "is_object": d.is_object(),
+    "version": field("version"), "file": field("file"), "sources": field("sources"),
+    "sourcesContent": field("sourcesContent"), "names": field("names"),
+    "mappings": field("mappings"), "sourceRoot": field("sourceRoot"), "debugId": field("debugId"),
+    "extra": extra,
+  })
+}
+
+/// fields: [[key, kind, value]...] in document order; kind "str" (byte
+/// array), "strs" (array of byte arrays, `{"null":true}` = null entry),
+/// "num", "null"
+fn write_doc(fields: &Value) -> String {
+  let esc = |bytes: &Value| -> String {
+    let st = String::from_utf8_lossy(&crate::build::bytes_of(bytes)).to_string();
+    let mut out = String::from("\"");
+    for ch in st.chars() {
+      match ch {
+        '"' => out.push_str("\\\""),
+        '\\' => out.push_str("\\\\"),
+        c if (c as u32) < 0x20 || (c as u32) > 0x7e => {
+          let mut buf = [0u16; 2];
+          for u in c.encode_utf16(&mut buf) {
+            out.push_str(&format!("\\u{:04x}", u));
+          }
+        }
+        c => out.push(c),
+      }
+    }
+    out.push('"');
+    out
+  };
+  let mut parts = vec![];
+  for f in fields.as_array().map(|a| a.as_slice()).unwrap_or(&[]) {
+    let key = f[0].as_str().unwrap_or("");
+    let val = match f[1].as_str().unwrap_or("") {
+      "str" => esc(&f[2]),
+      "strs" => {
+        let items: Vec<String> = f[2]
+          .as_array()
+          .map(|a| a.iter().map(|x| if x.is_object() { "null".to_string() } else { esc(x) }).collect())
+          .unwrap_or_default();
+        format!("[{}]", items.join(","))
+      }
+      "num" => f[2].to_string(),
+      _ => "null".to_string(),
+    };
+    parts.push(format!("\"{}\":{}", key, val));
+  }
+  format!("{{{}}}", parts.join(","))
 }
 
 enum Ev<'a> {
@@ -239,6 +319,66 @@ impl Machine {
         json!({})
       }
       "law" => json!({}),
+      "parse" => {
+        // one of the three parser entry points over raw bytes
+        let bytes = crate::build::bytes_of(&step["b"]);
+        let res = match step["via"].as_str().unwrap_or("slice") {
+          "json" => match std::str::from_utf8(&bytes) {
+            Ok(s) => SourceMap::from_json(s),
+            Err(_) => SourceMap::from_slice(&bytes),
+          },
+          "reader" => SourceMap::from_reader(&bytes[..]),
+          _ => SourceMap::from_slice(&bytes),
+        };
+        match res {
+          Ok(m) => json!({"res": "ok", "map": [map_json(&m)]}),
+          Err(_) => json!({"res": "err", "map": []}),
+        }
+      }
+      "to_json" => {
+        // serialise a SourceMap value, read the document with an independent
+        // parser (serde_json) and parse it back through all entry points
+        let m = crate::build::source_map_of(&step["map"]);
+        let text = m.clone().to_json();
+        let mut w: Vec<u8> = vec![];
+        let wres = m.clone().to_writer(&mut w);
+        match text {
+          Ok(text) => {
+            let doc: Result<Value, _> = serde_json::from_str(&text);
+            let back = |r: rspack_sources::Result<SourceMap>| match r {
+              Ok(m) => vec![map_json(&m)],
+              Err(_) => vec![],
+            };
+            json!({
+              "res": "ok",
+              "json": bytes_json(text.as_bytes()),
+              "writer_ok": wres.is_ok(),
+              "writer": bytes_json(&w),
+              "doc": doc.map(|d| vec![doc_json(&d)]).unwrap_or_default(),
+              "back_json": back(SourceMap::from_json(&text)),
+              "back_slice": back(SourceMap::from_slice(text.as_bytes())),
+              "back_reader": back(SourceMap::from_reader(text.as_bytes())),
+            })
+          }
+          Err(_) => json!({"res": "err"}),
+        }
+      }
+      "parse_doc" => {
+        // a document written by the harness (serde_json, every non-ASCII
+        // character escaped) from a structured description, then parsed by
+        // the crate through all three entry points
+        let text = write_doc(&step["fields"]);
+        let back = |r: rspack_sources::Result<SourceMap>| match r {
+          Ok(m) => json!({"res": "ok", "map": [map_json(&m)]}),
+          Err(_) => json!({"res": "err", "map": []}),
+        };
+        json!({
+          "text": bytes_json(text.as_bytes()),
+          "json": back(SourceMap::from_json(&text)),
+          "slice": back(SourceMap::from_slice(text.as_bytes())),
+          "reader": back(SourceMap::from_reader(text.as_bytes())),
+        })
+      }
       "codec" => {
         // encode -> decode -> encode again, all with the crate's own codec
         let ms = mappings_of(&step["segs"]);
@@ -421,6 +561,7 @@ impl Machine {
         obj.insert("oc".into(), json!(oc));
         obj.insert("out".into(), json!({}));
         obj.insert("msg".into(), json!(msg.chars().take(200).collect::<String>()));
+        obj.insert("loc".into(), json!(LAST_PANIC.with(|c| c.borrow().clone())));
       }
     }
     rec
